@@ -5,6 +5,7 @@
 //@ extract FN from algorithms/linfa-clustering/src/optics/algorithm.rs anchor "fn find_neighbors(" body
 //@ drop? FN from "let mut neighbors: Vec<Sample<F>> = nn" through ".collect();" as "        let mut neighbors = nn.within_range_samples(&candidate, self.tolerance());   /* the within_range(..).unwrap().into_iter().map(|(pt, index)| Sample { index, reachability_distance: Some(dist(pt, candidate)), core_distance: None }).collect() chain */"
 //@ drop? FN from "nn.within_range(candidate, self.tolerance())" through ".collect()" as "        nn.within_range_samples(&candidate, self.tolerance())   /* the same chain as a tail expression (the shape before fix b99ff5d) */"
+//@ drop? FN from "let neighbors: Vec<Sample<F>> = nn" through ".collect();" as "        let neighbors = nn.within_range_samples(&candidate, self.tolerance());   /* the same chain bound immutably */"
 //@ extract CORE from algorithms/linfa-clustering/src/optics/algorithm.rs anchor "fn set_core_distance(" body
 //@ rewrite CORE ".map(|x| dataset.row(x.index))" => ".map_row(&dataset)   /* .map(|x| dataset.row(x.index)) */"
 //@ rewrite CORE ".map(|x| self.dist_fn().distance(observation, x))" => ".map_dist(self.dist_fn(), &observation)   /* .map(|x| self.dist_fn().distance(observation, x)) */"
@@ -48,7 +49,11 @@ pub struct OptSample { pub some: bool, pub idx: Ghost<int> }
 pub struct OptRow { pub some: bool, pub idx: Ghost<int> }
 pub struct DatasetTok {}
 impl DatasetTok { #[verifier::external_body] pub fn row(&self, i: usize) -> (r: RowTok) ensures r.q@ == i { unimplemented!() } }
-impl OptSample { #[verifier::external_body] pub fn map_row(self, d: &DatasetTok) -> (r: OptRow) ensures r.some == self.some, r.idx@ == self.idx@ { unimplemented!() } }
+impl OptSample {
+    // Option::and
+    pub fn and(self, o: OptSample) -> (r: OptSample) ensures r.some == (self.some && o.some), r.some ==> r.idx@ == o.idx@ { if self.some { o } else { OptSample { some: false, idx: Ghost(0) } } }
+    #[verifier::external_body] pub fn map_row(self, d: &DatasetTok) -> (r: OptRow) ensures r.some == self.some, r.idx@ == self.idx@ { unimplemented!() }
+}
 pub struct DistTok {}
 impl OptRow {
     // .map(|x| dist_fn.distance(observation, x))
